@@ -554,5 +554,14 @@ Module Skel.
   Definition write_site_ok (func root : string) (fresh_local after_publish : bool) : bool :=
     (String.eqb root "pc.write" && (String.eqb func "Refresh" || String.eqb func "fetchMissing"))
     || (fresh_local && negb after_publish).
+
+  (* every assignment to a field through a selector chain in provider_cache.go
+     (gen/Gen_Fields_pcache.v): the root is an object allocated in the same function, or the
+     assignment sets ONE field of the writer-private cacheInfo entry / of the cache struct
+     itself (both touched only under the write slot).  A chain of depth >= 2 from such a
+     root (cinfo.provider.X) would write INTO a *ProviderInfo, which is shared with the
+     published maps and with callers; a root read out of the read maps is never assigned. *)
+  Definition field_write_ok (root : string) (depth : nat) (root_fresh : bool) : bool :=
+    root_fresh || (Nat.eqb depth 1 && (String.eqb root "cinfo" || String.eqb root "pc")).
 End Skel.
 
